@@ -253,6 +253,13 @@ func (i *Interpreter) ProcessFunctionSubroutine(sub *ast.SubroutineDeclaration, 
 }
 
 func (i *Interpreter) ProcessExpressionReturnStatement(stmt *ast.ReturnStatement) (value.Value, State, error) {
+	// Functional subroutine must return a value, "return;" has nothing to evaluate
+	if stmt.ReturnExpression == nil {
+		return value.Null, NONE, exception.Runtime(
+			&stmt.GetMeta().Token,
+			"Functional subroutine must return a value",
+		)
+	}
 	val, err := i.ProcessExpression(stmt.ReturnExpression)
 	if err != nil {
 		return value.Null, NONE, errors.WithStack(err)
